@@ -1,0 +1,178 @@
+//go:build verif
+// +build verif
+
+package netpoll
+
+// Contracts for the connection state machine (gocv). Comment-only, build tag verif.
+//
+// Thread-local ghost state (never shared: it describes what THIS goroutine holds):
+//   heldC / heldP / heldF   the connecting / processing / flushing token of the connection's locker
+//   sealed_heldP            the processing token is kept for ever (the close callbacks ran under it)
+//   opheld                  the do()/done() token of a poller slot
+// Token rules (DESIGN.md 6.1): a token appears only by the declared acquiring CAS on its lock word and
+// disappears only by the declared releasing store, which requires it (and requires it not sealed).
+
+//@ ghost field locker.heldC bool threadlocal
+//@ ghost field locker.heldP bool threadlocal
+//@ ghost field locker.heldF bool threadlocal
+//@ ghost field locker.sealed_heldP bool threadlocal
+//@ ghost field FDOperator.opheld bool threadlocal
+//@ lockword locker.keychain[connecting] token heldC acquire 0 1 release 0
+//@ lockword locker.keychain[processing] token heldP acquire 0 1 release 0
+//@ lockword locker.keychain[flushing] token heldF acquire 0 1 release 0 stop 0 2
+//@ lockword FDOperator.state token opheld acquire 1 2 release 1
+//@ nonzero locker.keychain[closing]
+//@ monotone connection.state
+
+// ghost flags of the handler task (publish / re-check shape, DESIGN.md 6.3)
+//@ ghost global tkReleased bool
+//@ ghost global tkSawClosing bool
+//@ ghost global tkClosingVal int
+//@ ghost global tkTriedAfterClosing bool
+//@ ghost global tkSawLen bool
+//@ ghost global tkLenVal int
+//@ ghost global tkTriedAfterLen bool
+//@ ghost global tkLenZeroSeen bool
+//@ ghost global cbRuns int
+
+// structural object invariant of an initialised connection
+//@ pred connok(c *connection) = c != nil && c.inputBuffer != nil && c.outputBuffer != nil && c.inputBuffer != c.outputBuffer
+//@     && c.operator != nil && c.readTrigger != nil && c.writeTrigger != nil
+
+//@ pred cblist() = forall n *callbackNode :: n != nil ==> n.fn#id != 0
+// everything about a connection that stays true whatever other goroutines and user callbacks do through the public API
+//@ pred cinv(c *connection) = connok(c) && cblist() && c.operator.detached >= 0 && c.operator.detached < 2147483000
+//@     && (c.closeCallbacks.v == nil || typeis(c.closeCallbacks.v, *callbackNode))
+
+// ---- user callbacks: assumed contracts (they use the public API only, which keeps the object invariant) ----
+//@ functype OnRequest
+//@   params ctx connection
+//@   results err
+//@   requires as(connection, *connection).heldP && !as(connection, *connection).sealed_heldP
+//@   requires as(connection, *connection).state != 0 || as(connection, *connection).onConnectCallback.v == nil
+//@   ensures cinv(as(connection, *connection)) && (old(as(connection, *connection).state != 0) ==> as(connection, *connection).state != 0) && as(connection, *connection).onConnectCallback.v == old(as(connection, *connection).onConnectCallback.v)
+//@   modifies world
+//@   maypanic
+//@   onpanic cinv(as(connection, *connection))
+//@
+//@ functype OnConnect
+//@   params ctx connection
+//@   results rctx
+//@   requires as(connection, *connection).heldP && !as(connection, *connection).sealed_heldP && as(connection, *connection).heldC
+//@   requires as(connection, *connection).state == 1
+//@   ensures cinv(as(connection, *connection)) && as(connection, *connection).state == 1
+//@   modifies world
+//@   maypanic
+//@   onpanic cinv(as(connection, *connection))
+//@
+//@ functype OnDisconnect
+//@   params ctx connection
+//@   requires as(connection, *connection).state == 2
+//@   ensures cinv(as(connection, *connection)) && as(connection, *connection).state == 2
+//@   modifies world
+//@   maypanic
+//@   onpanic cinv(as(connection, *connection))
+//@
+//@ functype CloseCallback
+//@   params connection
+//@   results err
+//@   requires as(connection, *connection).heldP && as(connection, *connection).keychain[closing] != 0
+//@   ensures cinv(as(connection, *connection))
+//@   note callbacks use the public API only: AddCloseCallback ignores nil, so the list only holds non-nil functions
+//@   modifies world
+
+//@ iface Poll.Control
+//@   params operator event
+//@   results err
+//@   note epoll_ctl: touches no connection state; registering marks the slot in use
+//@   modifies FDOperator.state
+
+//@ func (*FDOperator).Control
+//@   property C05 C10
+//@   requires op.poll != nil && op.detached >= 0 && op.detached < 2147483647
+//@   ensures event == 3 && old(op.detached) >= 1 ==> result == nil
+//@   ensures event == 3 ==> op.detached == old(op.detached) + 1
+//@   ensures event != 3 ==> op.detached == old(op.detached)
+//@   modifies op.detached, FDOperator.state
+
+//@ func (*connection).closeCallback
+//@   property C05 C06 C09
+//@   requires cinv(c)
+//@   requires !needLock ==> c.heldP && !c.sealed_heldP
+//@   requires c.keychain[closing] != 0
+//@   requires c.sealed_heldP ==> c.heldP
+//@   rely locker.keychain[closing]: was != 0 ==> now != 0
+//@   assume c.operator.detached < 2147482000
+//@   note fewer than 2^31 detach attempts on one poller slot tenure (the int32 counter would wrap)
+//@   ensures err == nil && cinv(c) && c.keychain[closing] != 0 && (c.sealed_heldP ==> c.heldP)
+//@   ensures !needLock ==> c.heldP && c.sealed_heldP && cbRuns == old(cbRuns) + 1
+//@   ensures needLock && old(c.heldP) ==> c.heldP && c.sealed_heldP == old(c.sealed_heldP) && cbRuns == old(cbRuns)
+//@   ensures needLock && !old(c.heldP) ==> (c.heldP == c.sealed_heldP) && (c.heldP ==> cbRuns == old(cbRuns) + 1) && (!c.heldP ==> cbRuns == old(cbRuns))
+//@   ensures c.heldC == old(c.heldC) && c.heldF == old(c.heldF)
+//@   modifies world, c.heldP, c.sealed_heldP, cbRuns
+//@   ghost after call (*atomic.Value).Load#1: c.sealed_heldP = true; cbRuns = cbRuns + 1
+//@   loop 1 invariant cinv(c) && c.heldP && c.sealed_heldP && c.keychain[closing] != 0 && cbRuns == old(cbRuns) + 1
+//@   loop 1 invariant c.heldC == old(c.heldC) && c.heldF == old(c.heldF)
+
+//@ func (*connection).onClose
+//@   property C05 C12
+//@   requires cinv(c) && (c.sealed_heldP ==> c.heldP)
+//@   rely locker.keychain[closing]: was != 0 ==> now != 0
+//@   ensures result == nil && cinv(c) && c.keychain[closing] != 0 && (c.sealed_heldP ==> c.heldP)
+//@   ensures old(c.heldP) ==> c.heldP && c.sealed_heldP == old(c.sealed_heldP) && cbRuns == old(cbRuns)
+//@   ensures !old(c.heldP) ==> (c.heldP == c.sealed_heldP) && cbRuns - old(cbRuns) <= 1 && cbRuns >= old(cbRuns)
+//@   ensures c.heldC == old(c.heldC) && c.heldF == old(c.heldF)
+//@   modifies world, c.heldP, c.sealed_heldP, cbRuns
+
+//@ func (*connection).Close
+//@   property C05 C12
+//@   requires cinv(c) && (c.sealed_heldP ==> c.heldP)
+//@   rely locker.keychain[closing]: was != 0 ==> now != 0
+//@   ensures result == nil && cinv(c) && c.keychain[closing] != 0 && (c.sealed_heldP ==> c.heldP)
+//@   ensures old(c.heldP) ==> c.heldP && c.sealed_heldP == old(c.sealed_heldP) && cbRuns == old(cbRuns)
+//@   ensures !old(c.heldP) ==> (c.heldP == c.sealed_heldP) && cbRuns - old(cbRuns) <= 1 && cbRuns >= old(cbRuns)
+//@   ensures c.heldC == old(c.heldC) && c.heldF == old(c.heldF)
+//@   modifies world, c.heldP, c.sealed_heldP, cbRuns
+
+//@ func (*connection).AddCloseCallback
+//@   property C05
+//@   requires cinv(c)
+//@   ensures result == nil && cinv(c)
+//@   ensures callback != nil ==> c.closeCallbacks.v != nil && as(c.closeCallbacks.v, *callbackNode).fn#id == callback#id && as(c.closeCallbacks.v, *callbackNode).pre == old(as(c.closeCallbacks.v, *callbackNode))
+//@   modifies c.closeCallbacks.v
+
+// the handler task: runs with the processing token (and the connecting token when it has to run OnConnect)
+//@ func (*connection).onProcess$1
+//@   property C05 C06 C09
+//@   requires c != nil && cinv(c)
+//@   requires c.heldP && !c.sealed_heldP && (onConnect != nil ==> c.heldC) && (onConnect == nil ==> !c.heldC)
+//@   requires onConnect == nil ==> c.state != 0 || c.onConnectCallback.v == nil
+//@   requires onConnect != nil ==> c.state == 0
+//@   takes c.heldP, c.heldC
+//@   threadlocal !tkReleased && !tkSawClosing && !tkTriedAfterClosing && !tkSawLen && !tkTriedAfterLen && !tkLenZeroSeen && cbRuns == 0
+//@   rely locker.keychain[closing]: was != 0 ==> now != 0
+//@   rely connection.state: now >= was && (was == 0 && c.heldC ==> now == 0)
+//@   ensures (!c.heldP || c.sealed_heldP) && !c.heldC && cbRuns <= 1
+//@   ensures !c.heldP ==> tkReleased && tkSawClosing && (tkClosingVal != 0 ==> tkTriedAfterClosing) && (onRequest != nil ==> tkSawLen && (tkLenVal > 0 ==> tkTriedAfterLen))
+//@   onpanic (!c.heldP || c.sealed_heldP) && cbRuns <= 1
+//@   modifies world, c.heldP, c.heldC, c.sealed_heldP, cbRuns, tkReleased, tkSawClosing, tkClosingVal, tkTriedAfterClosing, tkSawLen, tkLenVal, tkTriedAfterLen, tkLenZeroSeen
+//@   ghost after call (*locker).unlock#2: tkReleased = true; tkSawClosing = false; tkTriedAfterClosing = false; tkSawLen = false; tkTriedAfterLen = false
+//@   ghost after call (*locker).status#2: tkSawClosing = tkReleased; tkClosingVal = result
+//@   ghost after call (*locker).lock#1: tkTriedAfterClosing = tkSawClosing
+//@   ghost after call invoke.Len#3: tkSawLen = tkReleased; tkLenVal = result
+//@   ghost after call (*locker).lock#2: tkTriedAfterLen = tkSawLen; if result then tkReleased = false
+//@   loop 1 invariant cinv(c) && c.heldP && !c.sealed_heldP && !c.heldC && cbRuns == 0
+//@   loop 1 invariant c.state != 0 || c.onConnectCallback.v == nil
+//@   loop 2 invariant cinv(c) && c.heldP && !c.sealed_heldP && !c.heldC && cbRuns == 0
+//@   loop 2 invariant c.state != 0 || c.onConnectCallback.v == nil
+
+//@ func (*connection).onProcess
+//@   property C05 C06 C09
+//@   requires cinv(c) && (c.sealed_heldP ==> c.heldP)
+//@   requires onConnect != nil ==> c.heldC
+//@   requires onConnect == nil ==> !c.heldC && (c.state != 0 || c.onConnectCallback.v == nil)
+//@   rely connection.state: now >= was
+//@   ensures processed ==> !c.heldC && (old(c.heldP) == c.heldP || !c.heldP)
+//@   ensures !processed ==> c.heldP == old(c.heldP) && c.heldC == old(c.heldC)
+//@   ensures c.sealed_heldP == old(c.sealed_heldP)
+//@   modifies c.heldP, c.heldC, locker.keychain
